@@ -78,13 +78,18 @@ enum Op {
     /// a thread adds its own entries to the global parameter / function / known-value registries (possibly as
     /// their first user) and looks them up again: its own registrations are never lost
     RegisterInStoresThenLookup,
+    /// the application configures the global format context as flat, formats, and restores the setting
+    ConfigureFlatThenFormat,
+    /// the application registers a tag of its own in dcbor's global tag registry and then formats a value that
+    /// carries it: the tag's name shows iff the format context was first used after the registration
+    RegisterDcborTagThenFormat,
 }
-const OPS: [Op; 20] = [Op::Format, Op::FormatFlat, Op::TreeFormat, Op::DiagAnnotated, Op::Hex, Op::RegisterTags, Op::ContextRead, Op::KnownValuesLookup, Op::FunctionsLookup, Op::DcborDiag, Op::SharedCodec, Op::RegisterThenUr, Op::CustomTagThenFormat, Op::HoldRegistryThenFormat, Op::EarlyFailureSummary, Op::ResponseDisplay, Op::RequestSummary, Op::EventSummary, Op::ExpressionDisplay, Op::RegisterInStoresThenLookup];
+const OPS: [Op; 22] = [Op::Format, Op::FormatFlat, Op::TreeFormat, Op::DiagAnnotated, Op::Hex, Op::RegisterTags, Op::ContextRead, Op::KnownValuesLookup, Op::FunctionsLookup, Op::DcborDiag, Op::SharedCodec, Op::RegisterThenUr, Op::CustomTagThenFormat, Op::HoldRegistryThenFormat, Op::EarlyFailureSummary, Op::ResponseDisplay, Op::RequestSummary, Op::EventSummary, Op::ExpressionDisplay, Op::RegisterInStoresThenLookup, Op::ConfigureFlatThenFormat, Op::RegisterDcborTagThenFormat];
 
 impl Op {
     /// uses the global format context (initialises it on first use)
     fn initialises(&self) -> bool {
-        matches!(self, Op::Format | Op::FormatFlat | Op::TreeFormat | Op::DiagAnnotated | Op::Hex | Op::RegisterTags | Op::ContextRead | Op::RegisterThenUr | Op::CustomTagThenFormat | Op::HoldRegistryThenFormat | Op::EarlyFailureSummary | Op::ResponseDisplay | Op::RequestSummary | Op::EventSummary | Op::ExpressionDisplay)
+        matches!(self, Op::Format | Op::FormatFlat | Op::TreeFormat | Op::DiagAnnotated | Op::Hex | Op::RegisterTags | Op::ContextRead | Op::RegisterThenUr | Op::CustomTagThenFormat | Op::HoldRegistryThenFormat | Op::EarlyFailureSummary | Op::ResponseDisplay | Op::RequestSummary | Op::EventSummary | Op::ExpressionDisplay | Op::ConfigureFlatThenFormat | Op::RegisterDcborTagThenFormat)
     }
     fn registers(&self) -> bool {
         matches!(self, Op::RegisterTags | Op::RegisterThenUr)
@@ -194,6 +199,24 @@ fn run_op(op: Op, e: &Envelope, shared: &Arc<Envelope>) -> String {
             let kn = known_values::KNOWN_VALUES.get().as_ref().and_then(|s| s.assigned_name(&k).map(|x| x.to_string()));
             format!("{:?}|{:?}|{:?}", pn, fnm, kn)
         }
+        Op::ConfigureFlatThenFormat => {
+            bc_envelope::with_format_context_mut!(|c: &mut FormatContext| {
+                *c = c.clone().set_flat(true);
+            });
+            let text = shared.format();
+            bc_envelope::with_format_context_mut!(|c: &mut FormatContext| {
+                *c = c.clone().set_flat(false);
+            });
+            text
+        }
+        Op::RegisterDcborTagThenFormat => {
+            dcbor::with_tags_mut!(|t: &mut dcbor::TagsStore| {
+                t.insert(dcbor::Tag::new(7_654_321u64, "verif-dcbor-tag".to_string()));
+            });
+            let e2 = Envelope::new(CBOR::to_tagged_value(7_654_321u64, "ticket"));
+            let text = format!("{}|{}", e2.format(), e2.diagnostic_annotated());
+            if text.contains("verif-dcbor-tag") { "named".to_string() } else { "unnamed".to_string() }
+        }
         Op::RegisterThenUr => {
             // program-order guarantee: after this thread's own register_tags(), ur_string() works
             bc_envelope::register_tags();
@@ -230,6 +253,14 @@ struct Expected {
     dcbor_s0: Vec<String>,
     dcbor_s1: Vec<String>,
     constants: BTreeMap<Op, String>,
+    /// what a constant operation returns while the global context is configured flat by another thread
+    constants_flat: BTreeMap<Op, String>,
+    /// format() of envelope i while the global context is configured flat, in S1 / S2
+    s1_flat: BTreeMap<(Op, usize), String>,
+    s2_flat: BTreeMap<(Op, usize), String>,
+    /// format() of the shared envelope: hierarchical and flat texts (S1 and S2 variants)
+    shared_hier: Vec<String>,
+    shared_flat: Vec<String>,
 }
 
 static EXPECTED: OnceLock<Expected> = OnceLock::new();
@@ -277,12 +308,30 @@ fn calibrate() -> Expected {
         ex.constants.insert(Op::KnownValuesLookup, run_op(Op::KnownValuesLookup, &es[0], &shared));
         ex.constants.insert(Op::FunctionsLookup, run_op(Op::FunctionsLookup, &es[0], &shared));
         ex.constants.insert(Op::SharedCodec, run_op(Op::SharedCodec, &es[0], &shared));
+        // a tag registered in dcbor's registry BEFORE the format context is first used shows in the notation
+        let named = run_op(Op::RegisterDcborTagThenFormat, &es[0], &shared);
+        assert!(named == "named", "C20.alone-text: a tag registered in dcbor's global registry before the format context was first used does not show in format() / diagnostic_annotated()");
+        let set_flat = |flat: bool| {
+            bc_envelope::with_format_context_mut!(|c: &mut FormatContext| {
+                *c = c.clone().set_flat(flat);
+            });
+        };
         // S1: first formatting use initialises the context
         for (i, e) in es.iter().enumerate() {
             for op in OPS.iter().filter(|o| o.formats()) {
                 ex.s1.insert((*op, i), run_op(*op, e, &shared));
             }
         }
+        ex.shared_hier.push(shared.format());
+        set_flat(true);
+        for (i, e) in es.iter().enumerate() {
+            for op in OPS.iter().filter(|o| o.formats()) {
+                ex.s1_flat.insert((*op, i), run_op(*op, e, &shared));
+            }
+        }
+        ex.shared_flat.push(shared.format());
+        ex.constants_flat.insert(Op::HoldRegistryThenFormat, run_op(Op::HoldRegistryThenFormat, &es[0], &shared));
+        set_flat(false);
         for e in &es {
             ex.dcbor_s1.push(run_op(Op::DcborDiag, e, &shared));
         }
@@ -296,6 +345,18 @@ fn calibrate() -> Expected {
                 ex.s2.insert((*op, i), run_op(*op, e, &shared));
             }
         }
+        ex.shared_hier.push(shared.format());
+        set_flat(true);
+        for (i, e) in es.iter().enumerate() {
+            for op in OPS.iter().filter(|o| o.formats()) {
+                ex.s2_flat.insert((*op, i), run_op(*op, e, &shared));
+            }
+        }
+        ex.shared_flat.push(shared.format());
+        set_flat(false);
+        // configuring flat, formatting and restoring, alone: the flat text
+        let alone = run_op(Op::ConfigureFlatThenFormat, &es[0], &shared);
+        assert!(ex.shared_flat.contains(&alone), "C20.alone-text: format() under a flat global context does not return the flat text");
         // last, because it leaves its entries in the registries
         ex.constants.insert(Op::RegisterInStoresThenLookup, run_op(Op::RegisterInStoresThenLookup, &es[0], &shared));
         *o2.lock().unwrap() = ex;
@@ -417,7 +478,45 @@ fn check_history(events: &[Event], ex: &Expected) {
     let mut b_ops: Vec<&Event> = vec![]; // formatting call returned its S2 text
     let mut z_ops: Vec<&Event> = vec![]; // dcbor-level diag returned the S0 text
     let mut nz_ops: Vec<&Event> = vec![];
+    let flat_windows: Vec<&Event> = events.iter().filter(|o| o.op == Op::ConfigureFlatThenFormat).collect();
+    let in_flat_window = |e: &Event| flat_windows.iter().any(|o| o.thread != e.thread && o.inv < e.ret && e.inv < o.ret);
     for e in events {
+        if e.op.formats() && in_flat_window(e) && (e.out == ex.s1_flat[&(e.op, e.env)] || e.out == ex.s2_flat[&(e.op, e.env)]) && e.out != ex.s1[&(e.op, e.env)] && e.out != ex.s2[&(e.op, e.env)] {
+            // another thread had the global context configured flat while this call ran: the flat text of the same
+            // state is what the call returns alone under that configuration
+            if ex.s1_flat[&(e.op, e.env)] != ex.s2_flat[&(e.op, e.env)] {
+                if e.out == ex.s1_flat[&(e.op, e.env)] {
+                    a_ops.push(e);
+                } else {
+                    b_ops.push(e);
+                }
+            }
+            continue;
+        }
+        if e.op == Op::ConfigureFlatThenFormat {
+            let flat = ex.shared_flat.contains(&e.out);
+            let hier = ex.shared_hier.contains(&e.out);
+            // its own setting holds for its own format() unless another thread's configure-and-restore came in between
+            if !(flat || (hier && in_flat_window(e))) {
+                panic!("C20.alone-text: format() on a thread that had just configured the global context as flat returned {}:\n{}", if hier { "the hierarchical text although no other thread changed the setting" } else { "a text it never returns when run alone" }, e.out);
+            }
+            continue;
+        }
+        if e.op == Op::RegisterDcborTagThenFormat {
+            let initialised_before = events.iter().any(|o| !std::ptr::eq(o, e) && o.op != Op::RegisterDcborTagThenFormat && o.op.initialises() && o.ret < e.inv);
+            let another_registration = events.iter().any(|o| !std::ptr::eq(o, e) && o.op == Op::RegisterDcborTagThenFormat);
+            let could_be_initialised_by_others = events.iter().any(|o| !std::ptr::eq(o, e) && o.op.initialises() && o.inv < e.ret);
+            if e.out == "named" && initialised_before && !another_registration {
+                panic!("C20.linearizable: a tag registered after the format context had been initialised shows in the notation");
+            }
+            if e.out == "unnamed" && !could_be_initialised_by_others {
+                panic!("C20.alone-text: a tag registered in dcbor's global registry before the format context was first used does not show in the notation");
+            }
+            continue;
+        }
+        if e.op == Op::HoldRegistryThenFormat && in_flat_window(e) && Some(&e.out) == ex.constants_flat.get(&e.op) {
+            continue;
+        }
         if e.op.formats() {
             let t1 = &ex.s1[&(e.op, e.env)];
             let t2 = &ex.s2[&(e.op, e.env)];
